@@ -102,6 +102,13 @@ def run_unit(args):
     return out
 
 
+def _base(b):
+    for suf in (".only-when", ".whenever"):
+        if b.endswith(suf):
+            return b[: -len(suf)]
+    return b
+
+
 def sanitize(s):
     return re.sub(r"[^A-Za-z0-9_.=-]+", "_", s)[:150]
 
@@ -211,9 +218,29 @@ def check_property(prop, tier="quick", seed=0):
                 if values is not None:
                     try:
                         bad, what = replay.replay(case, values)
-                        confirmed = bool(bad) and any(b == o["short"] or o["short"].startswith(b) or b.startswith(o["short"]) for b in bad)
+                        # confirmed when the real code violates a clause of this property on the counter-model
+                        confirmed = bool(bad) and any(prop in case.props_of(_base(b)) for b in bad)
                     except Exception as e:  # noqa: BLE001
                         what = "replay crashed: %r" % (e,)
+                if not confirmed:
+                    # the counter-model lives in an abstraction (havocked loop state, uninterpreted
+                    # statistic): search the case's concrete grid for an input that fails on the real code
+                    import random as _r
+
+                    grid = list(case.grid(tier, _r.Random(seed)))
+                    if len(grid) > 3000:
+                        grid = _r.Random(seed).sample(grid, 3000)
+                    for gv in grid:
+                        try:
+                            gbad, gwhat = replay.replay(case, gv)
+                        except Exception:  # noqa: BLE001
+                            continue
+                        if gbad and any(prop in case.props_of(_base(b)) for b in gbad):
+                            o = dict(o)
+                            o["model"] = contract.jsonable(gv)
+                            o["detail"] += " | solver counter-model not replayable; failing input found by grid search: violates %s" % gbad
+                            what, confirmed = gwhat, True
+                            break
                 if confirmed:
                     path = write_replay(prop, case, o["name"], o["model"], {"solver_output": o["detail"], "real_code": what, "confirmed": True})
                     lines.append("VIOLATION property=%s replay=%s" % (prop, path))
